@@ -1,13 +1,18 @@
 /-
 C13 (linear work): the step-count theorems, bottom-up.  This module only collects the
-`Proofs/Cost*.lean` files.
+`Proofs/Cost*.lean` files; the master theorems are in namespace `Memchr.Cost`.
 
-* `CostBase`     partial-correctness step accounting (`Costs`, `Free`, the `cstep` tactic)
-* `CostGeneric`  generic vector `find_raw` / `rfind_raw`, byte-by-byte helpers
-* `CostMemchr`   SWAR, per-ISA wrappers, dispatch, slice forms: `Cost.memchr`, `Cost.memrchr`
-* `CostPrefilter` `Cost.memchrOk`, `Cost.prefilter`: every prefilter strategy, `4 * consumed + 1020`
-* `CostTwoWay`   Two-Way forward with a prefilter: `largeLoop_costs`, `smallLoop_costs` (under `GapOK`)
-* `CostTwoWayGap` `gapOK` (word combinatorics), `findWithPrefilter_costs`, `Cost.twoway_pre`
+* `CostBase`       partial-correctness step accounting (`Costs`, `Free`, `Post`, the `cstep` tactic)
+* `CostGeneric`    generic vector `find_raw` / `rfind_raw`, byte-by-byte helpers, `TickFree`
+* `CostMemchr`     SWAR, per-ISA wrappers, dispatch, slice forms: `Cost.memchr`, `Cost.memrchr`
+* `CostPrefilter`  `Cost.memchrOk`, `Cost.prefilter`: every prefilter strategy, `4 * consumed + 1020`
+* `CostTwoWay`     Two-Way forward with a prefilter: `largeLoop_costs`, `smallLoop_costs` (under `GapOK`)
+* `CostTwoWayGap`  `gapOK` (word combinatorics), `findWithPrefilter_costs`, `Cost.twoway_pre`
+* `CostTwoWayRev`  Two-Way reverse in refined form: `rfind_costs`
+* `CostPacked`     `is_equal_raw`, packed-pair `find` in refined form: `PackedPair.find_costs`
+* `CostSearcher`   `Cost.searcher_new`, `Cost.searcher_find`, `Cost.searcher_rev_new`,
+                   `Cost.searcher_rfind`, `Cost.finder_find`, `Cost.oneshot_find`, `Cost.oneshot_rfind`
+* `CostIter`       `Cost.find_iter_total`, `Cost.rfind_iter_total`
 -/
 import MemchrModel.Proofs.CostBase
 import MemchrModel.Proofs.CostGeneric
@@ -15,3 +20,22 @@ import MemchrModel.Proofs.CostMemchr
 import MemchrModel.Proofs.CostPrefilter
 import MemchrModel.Proofs.CostTwoWay
 import MemchrModel.Proofs.CostTwoWayGap
+import MemchrModel.Proofs.CostTwoWayRev
+import MemchrModel.Proofs.CostPacked
+import MemchrModel.Proofs.CostSearcher
+import MemchrModel.Proofs.CostIter
+
+#print axioms Memchr.Cost.memchr
+#print axioms Memchr.Cost.memrchr
+#print axioms Memchr.Cost.memchrOk
+#print axioms Memchr.Cost.prefilter
+#print axioms Memchr.Cost.twoway_pre
+#print axioms Memchr.Cost.searcher_new
+#print axioms Memchr.Cost.searcher_find
+#print axioms Memchr.Cost.searcher_rev_new
+#print axioms Memchr.Cost.searcher_rfind
+#print axioms Memchr.Cost.finder_find
+#print axioms Memchr.Cost.oneshot_find
+#print axioms Memchr.Cost.oneshot_rfind
+#print axioms Memchr.Cost.find_iter_total
+#print axioms Memchr.Cost.rfind_iter_total
